@@ -105,15 +105,22 @@ def run_finder(group, known, log):
     from .groups.base import compile_known
     c.known = tuple(compile_known(known))
     pool = solve.pool()
+    stats_out = getattr(group, '_finder_stats', None)
     for size in getattr(group, 'finder_sizes', ()):
         try:
             obls, stats = harness.function_obligations(c, 'B', size)
         except Exception as ex:
             log("   finder %s%s: %s" % (group.name, size, ex))
+            if stats_out is not None:
+                stats_out['errors'] += 1
             continue
         jobs = merge_by_hyp(obls, "%s.finder%s" % (group.name, str(tuple(size)).replace(' ', '')), 20000, cache=False)
         res = list(pool.imap_unordered(solve.solve_job, jobs, chunksize=2))
         byname = {j['name']: j for j in jobs}
+        if stats_out is not None:
+            stats_out['obligations'] += sum(len(j['subgoals']) for j in jobs)
+            stats_out['discharged'] += sum(len(byname[r['name']]['subgoals']) for r in res if r['result'] == 'unsat')
+            stats_out['unknown'] += sum(1 for r in res if r['result'] == 'unknown')
         for r in res:
             if r['result'] == 'sat' and r.get('model'):
                 j = byname[r['name']]
@@ -150,7 +157,7 @@ def check_property(pid, tier, cache=True, only_groups=None):
                 known_by_group.setdefault(gn, []).append(('native', k['native_match']))
     log("== %s (%s tier): %d obligation groups: %s" % (pid, tier, len(gnames), ', '.join(gnames)))
     results, timing = runmod.run_groups(gnames, tier, known_by_group, log, cache=cache)
-    violations, undecided, crashes = [], [], []
+    violations, undecided, crashes, downgraded = [], [], [], []
     for gn in gnames:
         g = results[gn]
         grp = GROUPS[gn]
@@ -163,6 +170,30 @@ def check_property(pid, tier, cache=True, only_groups=None):
             crashes.append((gn, g['errors']))
             continue
         if g['undecided']:
+            # the sidecar contract could not be bound to / executed on the current source (renamed local, construct
+            # outside the modelled subset of the INDUCTIVE mode). Pre- and postcondition do not mention locals: fall back
+            # to the bounded stand-in of the same contract; the group then counts as bounded, not as proved.
+            if grp.strength == 'P' and hasattr(grp, 'contract') and getattr(grp, 'finder_sizes', None):
+                grp._finder_stats = dict(obligations=0, discharged=0, unknown=0, errors=0)
+                verdict, conf = run_finder(grp, known_by_group.get(gn, ()), log)
+                fs = grp._finder_stats
+                grp._finder_stats = None
+                if verdict == 'violation':
+                    path = replay_path(pid, gn + '.bounded-fallback')
+                    write_json(path, dict(property=pid, group=gn, kind='kernel', obligation=conf.get('bounded_obligations'),
+                                          size=conf.get('size'), values=conf['values'], failed_clauses=conf['failed'],
+                                          real=conf['real'], exact=conf['exact'], note='inductive contract not applicable: ' + g['errors'][0]['error'][-300:]))
+                    violations.append((gn, (conf.get('bounded_obligations') or ['?'])[0], path,
+                                       "input %s fails %s" % (json.dumps(conf['values']), conf['failed'][:3]), True))
+                    continue
+                if verdict == 'none' and fs['errors'] == 0 and fs['unknown'] == 0 and fs['obligations'] > 0 and fs['obligations'] == fs['discharged']:
+                    log("      inductive contract of %s not applicable to the current source (%s); bounded stand-in %s: %d obligations discharged"
+                        % (gn, g['errors'][0]['error'].strip().split('\n')[-1][:160], grp.finder_sizes[-1], fs['discharged']))
+                    g['obligations'] += fs['obligations']
+                    g['discharged'] += fs['discharged']
+                    g['downgraded'] = 'P contract not applicable (%s); bounded stand-in up to %s' % (g['errors'][0]['error'].strip().split('\n')[-1][:200], grp.finder_sizes[-1])
+                    downgraded.append(gn)
+                    continue
             undecided.append((gn, '; '.join(e['error'] for e in g['errors'])))
             continue
         if g['obligations'] == 0:
@@ -267,7 +298,7 @@ def check_property(pid, tier, cache=True, only_groups=None):
         log(ln)
 
     wall = time.time() - t0
-    ev = build_evidence(pid, tier, P, gnames, results, timing, wall, violations, undecided, known_lines)
+    ev = build_evidence(pid, tier, P, gnames, results, timing, wall, violations, undecided, known_lines, downgraded)
     write_json(os.path.join(HERE, 'evidence', pid + '.json'), ev)
     if crashes:
         for c in crashes:
@@ -287,7 +318,7 @@ def check_property(pid, tier, cache=True, only_groups=None):
     return 0
 
 
-def build_evidence(pid, tier, P, gnames, results, timing, wall, violations, undecided, known_lines):
+def build_evidence(pid, tier, P, gnames, results, timing, wall, violations, undecided, known_lines, downgraded=()):
     from .groups.base import GROUPS
     tot_o = sum(results[g]['obligations'] for g in gnames)
     tot_d = sum(results[g]['discharged'] for g in gnames)
@@ -316,7 +347,7 @@ def build_evidence(pid, tier, P, gnames, results, timing, wall, violations, unde
                     extraction[rel] = source.module(rel).extraction_log
                 except Exception:
                     pass
-    all_pl = all(GROUPS[g].strength in ('P', 'L') for g in gnames)
+    all_pl = all(GROUPS[g].strength in ('P', 'L') for g in gnames) and not downgraded
     level = 'proof' if (all_pl and P.get('level') == 'proof') else 'other'
     expl = P.get('explanation', '')
     cov = dict(obligations=tot_o, discharged=tot_d,
@@ -328,6 +359,7 @@ def build_evidence(pid, tier, P, gnames, results, timing, wall, violations, unde
                bounded_parts=bounded, groups=groups, samples=samples or [dict(note='no discharged sample recorded')],
                backends=backends, timing=timing, extraction_drop_log=extraction,
                known_findings_printed=known_lines, undecided=[list(u) for u in undecided],
+               downgraded_to_bounded={g: results[g].get('downgraded') for g in downgraded},
                exhaustive=False)
     return dict(property_id=pid, tier=tier, seed=int(os.environ.get('VERIF_SEED', '0') or 0), level=level, coverage=cov,
                 assumptions=ASSUMPTIONS + list(P.get('assumptions', [])), wall_s=round(wall, 2), violations=len(violations))
